@@ -17,7 +17,7 @@
 (* compiled code (binding B1) and for the typeof() facts (B3).              *)
 EXTENDS Integers, Sequences, TLC, Json, FiniteSets
 
-CONSTANTS Part,      \* "small" (table + pow2 + real: one state per case) | "intpow" (step machine)
+CONSTANTS Part,      \* "small" (table + pow2 + real: one state per case) | "intpow" (step machine) | "all"
           IntTypes,  \* intpow: set of [w, s, grid] records (scaled images of the C integer types; grid: boundary bases only)
           MaxE,      \* intpow: largest exponent
           MaxN       \* pow2: largest exponent at the real widths
@@ -237,7 +237,9 @@ InitPow2 == /\ \E wd \in Widths : \E n \in -4..(IF wd[1] <= 31 THEN 30 ELSE MaxN
             /\ Idle
 InitReal == /\ \E x \in XGrid : \E y \in XGrid : cs = [part |-> "real", a |-> x, b |-> y, py |-> PyFloatPow(x, y), c |-> CFloatDemand(x, y)]
             /\ Idle
-Init == IF Part = "intpow" THEN InitIntPow ELSE (InitTable \/ InitPow2 \/ InitReal)
+Init == IF Part = "intpow" THEN InitIntPow
+        ELSE IF Part = "small" THEN (InitTable \/ InitPow2 \/ InitReal)
+        ELSE (InitTable \/ InitPow2 \/ InitReal \/ InitIntPow)
 
 \* switch (e) { case 3: t *= b; case 2: t *= b; case 1: return t; case 0: return 1; }  if (signed && e < 0) return 0;  t = 1;
 Switch == /\ pc = "switch"
